@@ -312,6 +312,20 @@ func genNeutralExpr(r *rand.Rand, n int, emit func(args ...string)) {
 		{"(", " ", "\n", "a", " ", " --\n ", ")"},
 		{"'a b'", " ", "\r\n", "=", " ", "\t", "'c'"},
 		{"a", " ", " /* ' */ ", "=", " ", " /* \" */ ", "'x'"},
+		// more look-ahead points (finding comment-before-regex-lookahead, fixed): several comments in
+		// one gap, a regex behind the comment, `!~`, nested calls, a sign behind the comment
+		{"f(", " ", " /*c*/ /*d*/ -- e\n ", "a)"},
+		{"f(", " ", " /*c*/ ", "/x/)"},
+		{"f(", " ", " -- c\r\n ", "/x/,", " ", " /* d */ ", "1)"},
+		{"f(", " ", " /*c*/ ", ")"},
+		{"a !~", " ", " -- c\n\t/* d */ ", "/x/"},
+		{"a =~", " ", " /*c*/ ", "b"},
+		{"a =~", " ", " /*/x/*/ ", "/y/"},
+		{"f(g(", " ", " /*c*/ ", "a),", " ", " --\n ", "h(b,", " ", " /**/ ", "/x/))"},
+		{"f(a,", " ", " /*c*/ ", "-1)"},
+		{"f(a,", " ", " -- c\n ", "- 1)"},
+		{"f(a,", " ", " /*c*/ ", "$p)"},
+		{"a /", " ", " /*c*/ ", "b /", " ", " -- c\n ", "c"},
 	} {
 		emit(neutralCase(gapTpl(c...))...)
 	}
